@@ -1,26 +1,28 @@
 #!/bin/bash
 # usage: tools/try_batch.sh <logfile> <seeded-dir>...
-# Runs the quick check of each seeded change's property with the change applied to /repo
-# (git apply / git checkout -- .), one after the other, from a frozen copy of /verif so that
-# the working copy can be edited meanwhile. Never commits anything; /repo is always restored.
+# Runs the quick check of each seeded change's property against a scratch worktree of /repo's
+# HEAD with the change applied (VERIF_REPO), one after the other, from a frozen copy of /verif
+# so that the working copy can be edited meanwhile. /repo itself is never touched.
+# (tools/try_seeded.sh does the same by applying the patch to /repo and restoring it.)
 set -u
 V="$(cd "$(dirname "$0")/.." && pwd)"
 LOG="$1"; shift
 SNAP="$(mktemp -d /tmp/vsnap-XXXXXX)"
 rsync -a --exclude .git --exclude replays --exclude bin "$V"/ "$SNAP"/
-trap 'git -C /repo checkout -- . 2>/dev/null; git -C /repo clean -fdq -- . 2>/dev/null; rm -rf "$SNAP"' EXIT
+WT="$(mktemp -d /tmp/tb-XXXXXX)"; rmdir "$WT"
+trap 'git -C /repo worktree remove --force "$WT" >/dev/null 2>&1; rm -rf "$WT" "$SNAP"' EXIT
 : > "$LOG"
 for D in "$@"; do
   D="$(cd "$D" && pwd)"
   PROP="$(python3 -c "import json;print(json.load(open('$D/meta.json'))['property'])")"
   echo "=== $(basename "$D") property=$PROP" >> "$LOG"
-  if [ -n "$(git -C /repo status --porcelain)" ]; then echo "refusing: /repo is not clean" >> "$LOG"; exit 2; fi
-  git -C /repo apply "$D/patch.diff" || { echo "patch does not apply" >> "$LOG"; continue; }
+  git -C /repo worktree remove --force "$WT" >/dev/null 2>&1; rm -rf "$WT"
+  git -C /repo worktree add -q --detach "$WT" HEAD || { echo "worktree failed" >> "$LOG"; exit 2; }
+  git -C "$WT" apply "$D/patch.diff" || { echo "patch does not apply" >> "$LOG"; continue; }
   t0=$(date +%s)
-  (cd "$SNAP" && ./run "$PROP" quick) > "$SNAP/out.txt" 2>&1
+  (cd "$SNAP" && VERIF_REPO="$WT" ./run "$PROP" ${TIER:-quick}) > "$SNAP/out.txt" 2>&1
   code=$?
-  git -C /repo checkout -- . ; git -C /repo clean -fdq -- .
-  grep -E "^VIOLATION|^OK |^INFRA|signature:|cases with" "$SNAP/out.txt" | cut -c1-240 | head -24 >> "$LOG"
+  grep -E "^VIOLATION|^OK |^INFRA|^NOTE|signature:|cases with" "$SNAP/out.txt" | cut -c1-240 | head -24 >> "$LOG"
   echo "exit=$code wall=$(( $(date +%s) - t0 ))s seeded=$(basename "$D")" >> "$LOG"
 done
 echo "BATCH DONE" >> "$LOG"
